@@ -109,6 +109,11 @@ func verifyFunction(prog *Program, fn *ssa.Function, ctr *Contract, opts VerifyO
 	if fn.Signature.Recv() != nil && len(fn.Params) > 0 {
 		fr.params["self"] = fr.vals[fn.Params[0]]
 	}
+	if fn.Name() == "init" && fn.Synthetic != "" && fn.Pkg != nil {
+		// a package initializer runs its body exactly once: verify that run (guard not yet set)
+		g := "global." + shortPkg(fn.Pkg.Pkg.Path()) + ".init$guard"
+		x.smt.Assert(not(x.heapRead(st, g, SBool, "#x00000001", "")))
+	}
 	fr.entry = st.clone()
 	// implicit preconditions (checked at every in-repo call site of a contracted
 	// function, see applyContract): non-nil receiver, request, writer, context
@@ -252,6 +257,20 @@ func (x *Exec) checkFrame(fr *Frame, st *State, ret *ssa.Return) {
 				return
 			case strings.HasPrefix(tgt, "#"):
 				ghosts[tgt[1:]] = true
+			case strings.HasPrefix(tgt, "region(") && strings.Contains(tgt, ") at "):
+				k := strings.Index(tgt, ") at ")
+				e, err := parser.ParseExpr(ghostRe.ReplaceAllString(tgt[k+5:], "ghost__$1"))
+				if err != nil {
+					x.unsupported("assigns target %q: %v", tgt, err)
+					return
+				}
+				sc := &specCtx{x: x, pkg: pkg, env: fr.params, st: fr.entry, old: fr.entry}
+				ov := sc.expr(e, nil)
+				base := ov.L[0]
+				if isInterface(ov.T) {
+					base = app("iref", ov.L[0])
+				}
+				allow = append(allow, allowed{prefix: tgt[7:k], base: base})
 			case strings.HasPrefix(tgt, "region(") && strings.HasSuffix(tgt, ")"):
 				allow = append(allow, allowed{prefix: tgt[7 : len(tgt)-1]})
 			case strings.HasPrefix(tgt, "pointees("):
@@ -563,6 +582,7 @@ func (c *scanCtx) scan(fn *ssa.Function, blocks []*ssa.BasicBlock) {
 		for _, instr := range b.Instrs {
 			switch t := instr.(type) {
 			case *ssa.Store:
+				c.x.preRegister(staticRegion(t.Addr), t.Val.Type(), isIndexed(t.Addr))
 				c.addEffect(staticRegion(t.Addr), t.Addr)
 			case *ssa.MapUpdate:
 				reg, _ := mapRegion(t.Map.Type().Underlying().(*types.Map))
@@ -609,6 +629,8 @@ func (c *scanCtx) contractEffects(ctr *Contract, sig *types.Signature, isGo bool
 				c.out.all = true
 			case strings.HasPrefix(tgt, "#"):
 				c.out.ghosts[tgt[1:]] = true
+			case strings.HasPrefix(tgt, "region(") && strings.Contains(tgt, ") at "):
+				c.out.whole[tgt[7:strings.Index(tgt, ") at ")]] = true
 			case strings.HasPrefix(tgt, "region("):
 				c.out.whole[tgt[7:len(tgt)-1]] = true
 			case strings.HasPrefix(tgt, "pointees("):
@@ -653,6 +675,9 @@ func (c *scanCtx) contractEffects(ctr *Contract, sig *types.Signature, isGo bool
 				if reg == "" {
 					c.out.all = true
 					continue
+				}
+				if tt := c.x.staticTypeOfSpec(ctr, sig, e); tt != nil {
+					c.x.preRegister(reg, tt, false)
 				}
 				if direct && actual != nil {
 					c.addEffect(reg, actual)
@@ -887,4 +912,35 @@ func splitConjuncts(n *SpecNode) []*SpecNode {
 		out = append(out, &SpecNode{Op: "go", Go: p, Subs: n.Subs, Text: buf.String()})
 	}
 	return out
+}
+
+// preRegister declares the heap regions that hold a value of type t at the
+// given prefix, so that loop-head havoc and frame invariants can refer to
+// regions the loop touches before their first use.
+func (x *Exec) preRegister(prefix string, t types.Type, indexed bool) {
+	if prefix == "" || t == nil {
+		return
+	}
+	idx := ""
+	if indexed {
+		idx = SBV64
+	}
+	for _, l := range leavesOf(t) {
+		if _, known := x.heapSort[prefix+l.Path]; !known {
+			x.regHeap(prefix+l.Path, l.Sort, idx)
+		}
+	}
+}
+
+func isIndexed(addr ssa.Value) bool {
+	for {
+		switch t := addr.(type) {
+		case *ssa.IndexAddr:
+			return true
+		case *ssa.FieldAddr:
+			addr = t.X
+		default:
+			return false
+		}
+	}
 }
